@@ -242,3 +242,10 @@ func vLastSent(ch interface{}) interface{} { return nil }
 
 // vSentOn: number of sends the goroutine under analysis performed on ch (engine event log).
 func vSentOn(ch interface{}) int { return 0 }
+
+// vRunPending: run every goroutine the spec deferred (defer_go) that has not run yet (engine-only; natively
+// goroutines run on their own).
+func vRunPending() {}
+
+// vPendingCount: number of deferred goroutines that have not run yet (engine-only, natively 0).
+func vPendingCount() int { return 0 }
